@@ -1,6 +1,8 @@
 import Verif.Model.JsonIO
 import Verif.Model.Fixer
 import Verif.Spec.Fixer
+import Verif.Model.Mixin
+import Verif.Spec.Mixin
 import Verif.Generated.Facts
 
 open Lean
@@ -20,6 +22,24 @@ def dispatch (op : String) (inp : J) (impl : Option J) : J :=
             ("implPost", match implDoc with | some d => .bool (Spec.Fixer.postcondition d) | none => .null),
             ("implFrame", match implDoc with | some d => .bool (Spec.Fixer.sameFrame d inp) | none => .null),
             ("implExpected", match implDoc with | some d => .bool (d == Spec.Fixer.expected inp) | none => .null)])]
+  | "mixin" =>
+    let primary := (inp.get? "primary").getD .null
+    let mixins := inp.getArr "mixins"
+    let docs := primary :: mixins
+    let encW := fun (ws : List Mixin.Warn) => J.arr (ws.map fun w => .arr [.str w.1, .str w.2])
+    let m := Mixin.mixin facts primary mixins
+    let implOk := impl.bind (·.get? "ok")
+    let spec := match implOk with
+      | some r =>
+        let doc := (r.get? "doc").getD .null
+        let wc := (r.getArr "warnings").length
+        [("failed", J.mkStrs (Spec.Mixin.failedClauses docs doc wc)),
+         ("failedIds", J.mkStrs (Spec.Mixin.failedIdClauses docs doc))]
+      | none => []
+    .obj [("model", JsonIO.outcome (fun (r : J × List Mixin.Warn) => .obj [("doc", r.1), ("warnings", encW r.2)]) m),
+          ("spec", .obj (spec ++ [
+            ("hyp18", .bool (docs.all Spec.Mixin.uniqueIds && Spec.Mixin.noSuffixClash docs)),
+            ("expectedWarnings", .num (Spec.Mixin.expectedWarnings docs))]))]
   | _ => .obj [("unsupported", .str op)]
 
 partial def loop (h : IO.FS.Stream) (out : IO.FS.Stream) : IO Unit := do
